@@ -210,7 +210,7 @@ package scan
 // worker: per received request: failed request -> one error, no probe; otherwise exactly one probe, then
 // one error, or one result, or nothing
 //@ func (*GenericEngine).worker
-//@   props C08 C13 C12
+//@   props C08 C13 C12 C10 C09
 //@   observe Scan, Put, (*sync.WaitGroup).Done
 //@   loop 0 row cancel:  [ctxdone ; call Done(_)] -> exit
 //@   loop 0 row closed:  [recv requests as (r, false) ; call Done(_)] -> exit
@@ -235,10 +235,10 @@ package scan
 
 // result hand-off: Put is a guarded send on the internal channel; the copier forwards each element once
 //@ func (*resultChan).Put
-//@   props C08 C12 C14
+//@   props C08 C12 C14 C20 C16 C06 C03
 //@   entry row put: [send? c.internalResults r] -> exit
 //@ func NewResultChan$1
-//@   props C08 C12 C14
+//@   props C08 C12 C14 C16
 //@   loop 0 row cancel:  [ctxdone ; close results] -> exit
 //@   loop 0 row forward: [recv internalResults as (v, _) ; send? results v] -> loop 0
 //@   loop 0 row fwd_c:   [recv internalResults as (v, _) ; ctxdone ; close results] -> exit
@@ -338,11 +338,11 @@ package scan
 // nothing outside it ever is (confinement). FillBytes cannot panic (0 <= NET + I - 1 < 2^32).
 //@ pred IPv4Net(n *net.IPNet) = n != nil && len(n.IP) == 4 && len(n.Mask) == 4
 //@ func (*ipGenerator).IPs
-//@   props C01 C02
+//@   props C01 C02 C04
 //@   requires r != nil && (r.DstSubnet != nil ==> IPv4Net(r.DstSubnet))
 //@   ensures nosubnet: old(r.DstSubnet) == nil ==> ret0 == nil && ret1 == ErrSubnet
 //@ func (*ipGenerator).IPs$1
-//@   props C01 C02 C12
+//@   props C01 C02 C12 C04
 //@   observe FillBytes, Next
 //@   requires it != nil && RI(it) && baseIP != nil && distinct(baseIP, it.P, it.G, it.I, it.startI, it.rangeLimit)
 //@   requires 1 <= big(it.I) && big(it.I) <= big(it.rangeLimit)
@@ -370,13 +370,13 @@ package scan
 //@   loop 0 invariant seen: 0 <= rangeindex + 1 && (forall k int :: 0 <= k && k <= rangeindex ==> ports[k].StartPort <= ports[k].EndPort)
 //@   ensures ordered: ret == nil ==> (forall k int :: 0 <= k && k < len(ports) ==> ports[k].StartPort <= ports[k].EndPort)
 //@ func (*portGenerator).Ports
-//@   props C01
+//@   props C01 C04
 //@   requires r != nil
 //@   observe validatePorts
 //@   entry row invalid: [call validatePorts(r.Ports) as (e)] when e != nil && ret0 == nil && ret1 == e -> exit
 //@   entry row start:   [call validatePorts(r.Ports) as (e) ; go (*portGenerator).Ports$1{out: bind_o, r: bind_r2, ctx: bind_c}] when e == nil && ret1 == nil && ret0 == o && r2 == r && c == ctx -> exit
 //@ func (*portGenerator).Ports$1
-//@   props C01 C12
+//@   props C01 C12 C04 C18
 //@   observe newRangeIterator, (*math/big.Int).Int64, Next
 //@   requires r != nil && (forall k int :: 0 <= k && k < len(r.Ports) ==> r.Ports[k].StartPort <= r.Ports[k].EndPort)
 //@   loop 0 modifies nothing
